@@ -68,6 +68,33 @@ def gen(tier, seed):
             if op == "matmul" and A["scalar"]:
                 op = "add"
         cases.append({"k": "cc", "A": A, "B": B, "op": op, "kind": kind, "shared": shared})
+    # rational operands with IDENTICAL weight tuples on DIFFERENT knot vectors (same number of control points)
+    for i in range(12 if tier == "quick" else 150):
+        p = rnd.randint(1, 2)
+        a, b = F(0), F(1)
+        x, y = rnd.sample([F(1, 3), F(2, 3), F(1, 2), F(1, 4)], 2)
+        U = [a] * (p + 1) + [x] + [b] * (p + 1)
+        V = [a] * (p + 1) + [y] + [b] * (p + 1)
+        d = rnd.choice((1, 2))
+        A, B = curve_json(rnd, U, p, d, True), curve_json(rnd, V, p, d, True)
+        B["W"] = A["W"] if rnd.random() < 0.7 else fsl([1] * npts_of(V, p))
+        if B["W"] != A["W"]:
+            A["W"] = B["W"]
+        cases.append({"k": "cc", "A": A, "B": B, "op": rnd.choice(["add", "sub", "add"]), "kind": "same-weights", "shared": 0})
+    # vector-valued A times scalar B where the point dimension equals the number of control points of the product
+    for i in range(10 if tier == "quick" else 100):
+        d = rnd.choice((2, 3, 3))
+        if d == 2:
+            (p, q) = rnd.choice(((1, 0), (0, 1)))
+        else:
+            (p, q) = rnd.choice(((1, 1), (2, 0), (0, 2)))
+        U = [F(0)] * (p + 1) + [F(1)] * (p + 1)
+        V = [F(0)] * (q + 1) + [F(1)] * (q + 1)
+        A = curve_json(rnd, U, p, d, rnd.random() < 0.3)
+        A["P"] = pts_json(rand_points(rnd, npts_of(U, p), d))
+        A["scalar"] = False
+        B = curve_json(rnd, V, q, 1, False)
+        cases.append({"k": "cc", "A": A, "B": B, "op": "mul", "kind": "square", "shared": 0})
     # scalar / vector / matrix forms
     for i in range(50 if tier == "quick" else 600):
         kind, U, p, _, _, _ = mk_pair(rnd, tier)
